@@ -55,8 +55,10 @@ CHECKS.update({
 CHECKS.update({
  "C01": ("proof", "Theorems: caches computed from scratch are the exact, duplicate-free inverse of the stored definitions of not-deleted entities (every state); the invariant's decision procedures are sound "
          "and are evaluated on every explored model state, which is compared cache for cache (with order) with the library; under the invariant the closure queries and every circulator list / valence / "
-         "is_boundary equal the brute-force sets (Properties_C01_queries.v). Preservation of the invariant by every incremental update path is NOT proved (obstacle: halfface re-ordering, see the file).",
-         "Coq proof (recompute exact, sound checkers, queries = brute force under the invariant) + lock step of caches and all accessors + brute-force oracles", "6 C01"),
+         "is_boundary equal the brute-force sets (Properties_C01_queries.v). The invariant is proved for EVERY state reached by a history of additions, checked add_cell, deletions in all four modes, "
+         "collect_garbage, mode switches, incidence toggles incl. re-enabling, swaps, clear and property operations (Properties_C01_all.v: C01_invariant_along_all_histories); outside that class (set_*, "
+         "unchecked add_cell of non-closed cells - refuted there, non-simple faces) the sound checkers run on every explored state.",
+         "Coq proof (invariant along all histories, recompute exact, queries = brute force under the invariant) + lock step of caches and all accessors + brute-force oracles", "6 C01"),
  "C04": ("proof", "Theorems: after collect_garbage / leaving deferred mode no deletion is pending, modes restored, every array one element per slot, identity without pending deletions; under an invariant "
          "proved for every deferred history, collect_garbage yields exactly the logical mesh (definitions renamed by rank, every property array = the live slots; fast mode: a bijection that definitions "
          "and values follow); equality with immediate deletion (single deletion from any invariant state, deletion on top of pending ones, lists of deletions); StatusAttrib::garbage_collection: tracked "
